@@ -3,7 +3,7 @@
 
   Model: `Actor.pruneAndPing` / `pingRound` (`check_nodes_to_ping_and_remove_stale_nodes`),
   `Actor.addResponder` + `RoutingTable.add` (responders re-added on every expected response — ping
-  responses included after the `fix:` commit —, `last_seen` refreshed for a known node after the
+  responses included after the `fix:` commit, answers that carry a value after another —, `last_seen` refreshed for a known node after the
   other `fix:` commit), `Actor.maintenance` (`periodic_node_maintaenance`: bootstrap when empty,
   refresh every 15 minutes, ping round every 5 minutes).
   Time is the virtual monotonic clock in ns; the three intervals are read from the source (T1).
@@ -189,5 +189,114 @@ theorem refresh_when_due (a : Actor) (now : Nat) (hdue : a.refreshDue now = true
   rw [hid] at this
   rw [hid]
   exact this
+
+
+/-! ### whoever answers is in the table -/
+
+/-- `KBucket::add` answers `true` only after putting the incoming node (with its fresh timestamp) at
+    the tail of the bucket -/
+theorem kbucketAdd_true_mem (nodes : List Node) (incoming : Node) (now : Nat)
+    (h : (RoutingTable.kbucketAdd nodes incoming now).2 = true) :
+    incoming ∈ (RoutingTable.kbucketAdd nodes incoming now).1 := by
+  unfold RoutingTable.kbucketAdd at h ⊢
+  cases hf : nodes.findIdx? (fun n => n.id == incoming.id) with
+  | some index =>
+    rw [hf] at h
+    simp only at h ⊢
+    split
+    · simp
+    · rename_i hacc; rw [if_neg hacc] at h; cases h
+  | none =>
+    rw [hf] at h
+    simp only at h ⊢
+    split
+    · simp
+    · rename_i h1
+      rw [if_neg h1] at h
+      split
+      · simp
+      · rename_i h2; rw [if_neg h2] at h; cases h
+
+/-- **`add` says what it did**: when it answers `true`, the table holds the node as given — its
+    id, its address, last seen now. -/
+theorem add_true_mem (rt : RoutingTable) (hinv : TableInv rt) (node : Node) (now : Nat)
+    (h : (rt.add node now).2 = true) : node ∈ (rt.add node now).1.entries := by
+  unfold RoutingTable.add at h ⊢
+  split
+  · rename_i h0; simp [h0] at h
+  · split
+    · rename_i h0 h1; simp [h0, h1] at h
+    · rename_i h0 h1
+      simp only [h0, h1] at h
+      simp only
+      rw [mem_entries_setBucket rt hinv.sorted]
+      exact Or.inl (kbucketAdd_true_mem _ node now (by simpa using h))
+
+
+/-- the only answer to a lookup whose author is not offered to the routing table: signed peers of
+    which one record does not verify -/
+theorem lookupStep_flag_false (q : IterQuery) (env : Env) (src : Addr) (m : Message)
+    (h : (lookupStep q env src m).2.2 = false) :
+    ∃ i t ps ns, m.mtype = .response (.getSignedPeers i t ps ns) := by
+  unfold lookupStep at h
+  have key : ∀ (q' : IterQuery), (queryValue env.verify q' m.mtype).2 = false →
+      ∃ i t ps ns, m.mtype = .response (.getSignedPeers i t ps ns) := by
+    intro q' hq
+    unfold queryValue at hq
+    split at hq
+    · cases hq
+    · rename_i i t ps ns heq
+      exact ⟨i, t, ps, ns, heq⟩
+    · split at hq <;> cases hq
+    · split at hq <;> cases hq
+    · cases hq
+  split at h
+  · rename_i v b heq
+    exact key _ (by rw [heq]; exact h)
+  · rename_i b heq
+    exact key _ (by rw [heq]; exact h)
+
+/-- **Whoever answers a lookup is offered to the routing table** — with a value or without (the
+    `fix:` commit 65e9807 made the first half true): after `handle_response` the table is the old
+    table with `add(author id @ sender address, seen now)` applied. -/
+theorem answer_adds_author (c : Core) (env : Env) (src : Addr) (m : Message) (target : Id) (q : IterQuery) (i : Id)
+    (hro : m.readOnly = false)
+    (hput : c.puts.find? (fun p => p.2.q.isInflight m.tid.toNat) = none)
+    (hfind : c.iter.find? (fun p => p.2.isInflight m.tid.toNat) = some (target, q))
+    (hflag : (lookupStep q env src m).2.2 = true) (hauth : authorId m = some i) :
+    (handleResponse c env src m).1.rt = (c.rt.add { id := i, addr := src, lastSeen := env.now } env.now).1 := by
+  unfold handleResponse
+  simp only [hro, Bool.false_eq_true, ite_false, hput, hfind, hflag, ite_true]
+  unfold addResponder
+  simp only [hauth]
+  split <;> rfl
+
+/-- …and whoever answers a ping (an answer that belongs to no lookup and no put) -/
+theorem ping_answer_adds_author (c : Core) (env : Env) (src : Addr) (m : Message) (i : Id)
+    (hro : m.readOnly = false)
+    (hput : c.puts.find? (fun p => p.2.q.isInflight m.tid.toNat) = none)
+    (hfind : c.iter.find? (fun p => p.2.isInflight m.tid.toNat) = none)
+    (hm : m.mtype = .response (.ping i)) :
+    (handleResponse c env src m).1.rt = (c.rt.add { id := i, addr := src, lastSeen := env.now } env.now).1 := by
+  unfold handleResponse
+  simp only [hro, Bool.false_eq_true, ite_false, hput, hfind, hm]
+  unfold addResponder authorId
+  simp only [hm, Response.authorId]
+  split <;> rfl
+
+/-- **C14, first clause, for one answer.**  A peer whose answer to a lookup has just been handled is
+    in the routing table, seen now, unless `RoutingTable::add` refused it — which it does only for
+    the table's own id, for the per-IP limits of C12, or for a full bucket whose oldest entry is
+    still fresh. -/
+theorem answering_peer_in_table (c : Core) (hinv : TableInv c.rt) (env : Env) (src : Addr) (m : Message)
+    (target : Id) (q : IterQuery) (i : Id) (hro : m.readOnly = false)
+    (hput : c.puts.find? (fun p => p.2.q.isInflight m.tid.toNat) = none)
+    (hfind : c.iter.find? (fun p => p.2.isInflight m.tid.toNat) = some (target, q))
+    (hflag : (lookupStep q env src m).2.2 = true) (hauth : authorId m = some i)
+    (hadd : (c.rt.add { id := i, addr := src, lastSeen := env.now } env.now).2 = true) :
+    ({ id := i, addr := src, lastSeen := env.now } : Node) ∈ (handleResponse c env src m).1.rt.entries := by
+  rw [answer_adds_author c env src m target q i hro hput hfind hflag hauth]
+  exact add_true_mem c.rt hinv _ env.now hadd
+
 
 end Mainline.Props.C14
